@@ -101,17 +101,18 @@ func lexical(t time.Time, form int) string {
 const c02Forms = 9
 
 type c02Case struct {
-	tol    c02Tol
-	pos    [5]int // R.II, A.II, NB, NOOA, C.NOOA
-	shape  int    // 0 single; 1 two confirmations bad first; 2 two confirmations bad second; 3 two assertions bad first; 4 two assertions bad second; 5 no subject confirmation at all
-	layout int    // 0 response signed, 1 assertion(s) signed
-	form   int
-	entry  int // 0 xml, 1 post, 2 artifact (AR.II satisfying), 3 artifact (AR.II violating)
-	nowOff time.Duration
+	tol      c02Tol
+	pos      [5]int // R.II, A.II, NB, NOOA, C.NOOA
+	shape    int    // 0 single; 1 two confirmations bad first; 2 two confirmations bad second; 3 two assertions bad first; 4 two assertions bad second; 5 no subject confirmation at all
+	layout   int    // 0 response signed, 1 assertion(s) signed
+	form     int
+	entry    int  // 0 xml, 1 post, 2 artifact (AR.II satisfying), 3 artifact (AR.II violating)
+	arSigned bool // artifact entries: the ArtifactResponse envelope carries its own signature as well
+	nowOff   time.Duration
 }
 
 func (k c02Case) String() string {
-	return fmt.Sprintf("D=%v S=%v pos=%v shape=%d layout=%d form=%d entry=%d nowoff=%v", k.tol.D, k.tol.S, k.pos, k.shape, k.layout, k.form, k.entry, k.nowOff)
+	return fmt.Sprintf("D=%v S=%v pos=%v shape=%d layout=%d form=%d entry=%d arsigned=%v nowoff=%v", k.tol.D, k.tol.S, k.pos, k.shape, k.layout, k.form, k.entry, k.arSigned, k.nowOff)
 }
 
 func setTimes(ael *etree.Element, aII, nb, nooa time.Time, cNOOA []time.Time, form int) {
@@ -171,6 +172,7 @@ func runC02(c *core.Ctx) {
 		if k.entry >= 2 && c.Rng.Intn(2) == 0 {
 			k.entry = c.Rng.Intn(2)
 		}
+		k.arSigned = k.entry >= 2 && c.Rng.Intn(2) == 0
 		add(k)
 	}
 
@@ -286,6 +288,12 @@ func c02Run(c *core.Ctx, o *so.Oracle, sp *saml.ServiceProvider, s1 *fx.KeyPair,
 			inner, _ := so.Parse(raw)
 			ar := o.ArtifactResponseEl("art-req-1", n, inner)
 			ar.CreateAttr("IssueInstant", lexical(arII, k.form))
+			if k.arSigned {
+				if sg, serr := o.Sign(ar, s1, ""); serr == nil {
+					ar = sg
+					c.Count("artifact_envelope_signed")
+				}
+			}
 			got, err = sp.ParseXMLArtifactResponse(so.Bytes(so.SOAP(ar)), []string{"req-1"}, "art-req-1", cur)
 		}
 	})
